@@ -327,7 +327,63 @@ def _sample(case):
             'style0': case['styles'][0]}
 
 
+@st.composite
+def _reuse_cases(draw):
+    c = draw(_cases(route='package'))
+    while len(c['resources']) < 2:
+        extra = draw(_cases(route='package'))
+        k = len(c['resources'])
+        res = _rename_lexicons(extra['resources'][0],
+                               {lx['id']: f'q{k}{lx["id"]}' for lx in extra['resources'][0]['lexicons']})
+        c['resources'].append(res)
+        c['styles'].append(extra['styles'][0])
+    c['route'] = draw(st.sampled_from(['package-reused', 'collection-member-reused']))
+    c['orphan_extension'] = False
+    return c
+
+
+def reuse_oracle(case):
+    """A release directory updated in place: the same package (or collection) path is supplied
+    again after its resource file was replaced by another one."""
+    import wn
+    out: list[Disc] = []
+    work = env.new_dir('c07r')
+    xmls = [xmlw.write(res, work / f'r{k}.xml', st_)
+            for k, (res, st_) in enumerate(zip(case['resources'], case['styles']))]
+    base_dir = work / 'base'
+    base_dir.mkdir()
+    base_states = _run_route('xml', xmls, base_dir, out, 'baseline')
+    if out:
+        return out
+    db = env.fresh_db()
+    wn.lexicons()
+    if case['route'] == 'package-reused':
+        target = pkg = work / 'release'
+    else:
+        target = work / 'collection'
+        target.mkdir()
+        pkg = target / 'pkg'
+    for k, x in enumerate(xmls):
+        if pkg.exists():
+            shutil.rmtree(pkg)
+        _make_package(x, pkg, k)          # resource file name differs each time
+        wn.add(target, progress_handler=None)
+    got = _state(db)
+    exp = base_states[0]
+    if got['installed'] != exp['installed']:
+        out.append(Disc('installed-set-differs', 'package directory updated in place',
+                        exp['installed'], got['installed']))
+        return out
+    for p, e, g in diff(exp['logical'], got['logical'])[:5]:
+        out.append(Disc('tables-differ-from-plain-xml', f'reused{p}', e, g))
+    for p, e, g in diff(exp['api'], got['api'])[:5]:
+        out.append(Disc('api-differs-from-plain-xml', f'reused{p}', e, g))
+    return out
+
+
 SUBS = [
+    Sub('package-dir-reused', reuse_oracle, _classify, strategy=lambda tier: _reuse_cases(),
+        budget={'quick': 6, 'thorough': 60}, fingerprint=_fp, sample=_sample),
     Sub('routes-stratified', oracle, _classify, enumerate=_enumerate_routes,
         exhaustive_note='every one of the 15 supply routes with generated documents',
         fingerprint=_fp, sample=_sample,
